@@ -585,10 +585,11 @@ func GenFile(o Options) *rapid.Generator[*File] {
 				case 1:
 					x.Kind = "css"
 					x.Name = fmt.Sprintf("css%d", i)
-					x.Props = []CSSProp{{Name: "color", Val: "red"}}
+					// custom property names are case-sensitive; the others are written as the author spelled them
+					x.Props = []CSSProp{{Name: rapid.SampledFrom([]string{"color", "color", "--mainColor", "--Paper-shadow", "background-Color", "-webkit-Transition"}).Draw(t, "cssname"), Val: "red"}}
 					if rapid.Bool().Draw(t, "cssexpr") {
 						e := Expr{Kind: "strlit", Str: "1px", Lit: "quoted"}
-						x.Props = append(x.Props, CSSProp{Name: "width", E: &e})
+						x.Props = append(x.Props, CSSProp{Name: rapid.SampledFrom([]string{"width", "width", "--boxWidth"}).Draw(t, "cssexprname"), E: &e})
 					}
 				default:
 					x.Kind = "script"
